@@ -589,6 +589,9 @@ impl NHistory {
                 self.violate("C04", "a client surfaced a payload from a datagram that is not authentic or was replayed".to_string());
             }
         }
+        if surfaced.is_some() && !was_connected {
+            self.violate("C04", format!("client {} surfaced a payload although it was not connected when the datagram arrived", k));
+        }
         if let Some(p) = surfaced {
             self.feat("payload_at_client");
             match genuine_index {
